@@ -926,8 +926,31 @@ def run_check(prop, tier, want, budgets=False):
             kind = "cut:" if budgets else ""
             v.violation("%s:%s%s" % (name, kind, why), m)
         samples += [{"source": progs[0][0], "prime": P}, {"source": progs[len(progs) // 2][0], "prime": P}]
+    timebox = None
+    if budgets:
+        # the REAL time box: a definition whose value and degree propagation are still progressing after 10 s of wall clock
+        # (pass budgets cut the loops within milliseconds; only a real expiry exercises the bail-out itself)
+        n = 2500 if tier == "quick" else 4000
+        src = "template Table() {\n    signal input in;\n    signal output out;\n    var c0 = 7;\n" + \
+              "".join("    var c%d = (c%d * 5 + %d) * (c%d + 3) + %d;\n" % (i, i - 1, 2 * i + 1, i - 1, i) for i in range(1, n)) + \
+              "    out <== in * c%d;\n}\n" % (n - 1)
+        pin, pout = os.path.join(wd, "tb.in"), os.path.join(wd, "tb.out")
+        write_ndjson(pin, [{"id": 0, "src": src, "passes": True}])
+        import time as _t
+        t0 = _t.time()
+        pr = vh(["irdump", pin, pout], timeout=900, check=False)
+        dt = _t.time() - t0
+        docs_tb = list(read_ndjson(pout)) if pr.returncode == 0 and os.path.exists(pout) else []
+        d0 = docs_tb[0] if docs_tb else {}
+        timebox = {"statements": n, "seconds": round(dt, 1), "passes_run": d0.get("passes_run")}
+        if pr.returncode != 0 or "panic" in d0 or "ssa" not in d0:
+            v.violation("%s:the tool does not complete normally when the real time box fires" % name,
+                        {"source": src[:600] + "\n    ... (%d statements of this shape)\n" % n, "prime": "BN254", "seconds": round(dt, 1),
+                         "panic": d0.get("panic"), "stderr": (pr.stderr or "")[-500:]})
+        elif dt < 10:
+            v.note("the time-box program finished in %.1f s: the real time box was not reached on this machine" % dt)
     cov = {"states": total_states + gstates, "transitions": total_gen + ggen, "traces_validated_against_impl": nrec, "exhaustive": False,
-           "evaluations": nrec, "distinct_nontrivial": nonvac,
+           "evaluations": nrec, "distinct_nontrivial": nonvac, "real_time_box": timebox,
            "rule": "every statement skeleton SemGen.tla derives in <= %d steps (functions and templates: %d skeletons), %d seeded instances "
                    "each (operators over all 20 infix / 3 prefix / ternary, literals 0..P+1, two parameters, up to four locals, two input "
                    "signals) plus every depth-1 expression of ExprGen.tla (all operators x all atom pairs; %d expressions incl. sampled depth-2 ones) in the "
